@@ -251,6 +251,7 @@ package main
 //@   at call Decode: assert [each-record-once-in-order] result == nil ==> rec(arg1) == ditem(d, n)
 //@   at call Add: assert [adds-the-record-just-decoded] rec(arg1) == ditem(d, n) && !closedPlot ; ghost n = n + 1
 //@   at call Close: ghost closedPlot = true
+//@   before call Label: assert [series-are-split-by-the-error-field] fname(arg0) == "ErrorLabeler"
 //@   before call WriteTo: assert [written-after-close] closedPlot
 //@   ensures [all-records-plotted-unless-interrupted] err == nil && !interrupted && d != 0 ==> n == dlen(d)
 //@   loop 1
